@@ -377,7 +377,7 @@ theorem emit_keeps (f : Nat) (hst : StratK f) (hl : LoopK f) : EmitK (f+1) := by
         · rename_i s2 o2 v2 hr
           have g12 : Keeps s1 s2 := by
             split at hr
-            · exact hst P s1 i _ _ arg strat s2 o2 v2 hr
+            · exact hst P s1 i _ _ arg (strat.forFlavour fl) s2 o2 v2 hr
             · exact hl P s1 i _ _ arg 0 s2 o2 v2 hr
           split at h
           · simp at h; obtain ⟨h1, _, _⟩ := h; subst h1
